@@ -348,14 +348,15 @@ class Model(EconomicObject):
                 series_holder = self.EquationSolver.TimeSeriesStepTrace
             elif group_of_series == 'initial': # pragma: no cover
                 series_holder = self.EquationSolver.TimeSeriesInitialSteadyState
+            # Always hand back a copy, so that the caller cannot alter the stored results.
             if cutoff is None:
-                val = series_holder[series]
+                val = list(series_holder[series])
             else:
                 val = series_holder[series][0:(cutoff + 1)]
         except KeyError:
             raise KeyError('Time series "{0}" does not exist'.format(series))
         if self.TimeSeriesSupressTimeZero:
-            val.pop(0)
+            val = val[1:]
         return val
 
     def _FixAliases(self):
